@@ -19,7 +19,8 @@ def one_history(seed, steps, mode):
                 if inc.get(name) != dig:
                     return {'kind': 'incremental-differs-from-clean', 'package': name, 'mode': mode, 'history': log, 'after_build': i}, log
             rc2, out2 = p.bob(mode, 'r0')
-            ex = H.executed_steps(out2)
+            # import SCMs are re-run on every invocation by design (they pick up local edits): not a deterministic checkout
+            ex = [e for e in H.executed_steps(out2) if not (e[0] == 'CHECKOUT' and '/tool/' in e[1])]
             if rc2 != 0 or ex:
                 return {'kind': 'repeated-build-executes-steps', 'executed': ex[:6], 'mode': mode, 'history': log}, log
             model, d = P.apply_edit(rnd, model, hist); hist.append(model); log.append(d)
